@@ -352,13 +352,12 @@ func c19Jobs(tier string) []*SeqJob {
 				continue
 			}
 			n := n
-			saved := ctx.shard
+			saved, savedN := ctx.shard, ctx.nshards
 			ctx.shard, ctx.nshards = 0, 1 // bfs shards by first op; here the shard unit is the child count
+			ctx.OpsPrefix = []string{fmt.Sprintf("children=%d", n)} // makes the replay self-contained
 			bfs(ctx, cachedAlpha, depthC, func(h []int) (string, string, string, int) { return runCached(n, h) })
-			ctx.shard = saved
+			ctx.shard, ctx.nshards = saved, savedN
 			if ctx.viol != nil {
-				// make the replay self-contained
-				ctx.viol.Ops = append([]string{fmt.Sprintf("children=%d", n)}, ctx.viol.Ops...)
 				return
 			}
 		}
